@@ -34,6 +34,13 @@ pub assume_specification<T: ?Sized, A: Allocator>[ <Arc<T, A> as AsRef<T>>::as_r
 pub assume_specification<T: ?Sized, A: Allocator>[ <Box<T, A> as AsRef<T>>::as_ref ](a: &Box<T, A>) -> (r: &T)
     ensures r == &**a;
 
+/// Option::map_or: the default for None, the closure's result for Some
+#[verifier::allow(undeclared_external_trait)]
+pub assume_specification<T, U, F: FnOnce(T) -> U>[ Option::<T>::map_or::<U, F> ](o: Option<T>, default: U, f: F) -> (r: U)
+    where T: core::marker::Destruct, U: core::marker::Destruct, F: core::marker::Destruct
+    requires o is Some ==> f.requires((o.unwrap(),))
+    ensures o is None ==> r == default, o is Some ==> f.ensures((o.unwrap(),), r);
+
 #[verifier::allow(undeclared_external_trait)]
 pub assume_specification<T, E>[ Result::<T, E>::unwrap_or ](r: Result<T, E>, d: T) -> (v: T)
     where E: core::marker::Destruct, T: core::marker::Destruct
